@@ -182,9 +182,17 @@ Section Exec.
     | ESub a b => do u <- eval e a; do v <- eval e b;
                   match u, v with VInt p, VInt q => Some (VInt (p - q)) | _, _ => None end
     | EEq a b => do u <- eval e a; do v <- eval e b;
-                 match u, v with VInt p, VInt q => Some (VBool (p =? q)) | _, _ => None end
+                 match u, v with
+                 | VInt p, VInt q => Some (VBool (p =? q))
+                 | VStr p, VStr q => Some (VBool (text_eqb p q))
+                 | _, _ => None
+                 end
     | ENe a b => do u <- eval e a; do v <- eval e b;
-                 match u, v with VInt p, VInt q => Some (VBool (negb (p =? q))) | _, _ => None end
+                 match u, v with
+                 | VInt p, VInt q => Some (VBool (negb (p =? q)))
+                 | VStr p, VStr q => Some (VBool (negb (text_eqb p q)))
+                 | _, _ => None
+                 end
     | EInStr a b => do u <- eval e a; do v <- eval e b;
                     match u, v with
                     | VStr p, VStr q => Some (VBool (match find_sub p q with Some _ => true | None => false end))
